@@ -273,3 +273,17 @@ def relative_pattern_model(ctx):
                 return None
     body = " ".join(ast.unparse(subst(tpl[1][0], i)).split())
     return {"template": tpl[0], "flags": flags, "body": body, "function": f}
+
+
+def pipeline_body(body, p):
+    """the statements of a string pipeline with a final `return <op>(p)` written as `p = <op>(p)` + `return p`"""
+    out = []
+    for s in body:
+        if isinstance(s, ast.Return) and s.value is not None and not (isinstance(s.value, ast.Name) and s.value.id == p) \
+                and any(isinstance(x, ast.Name) and x.id == p for x in ast.walk(s.value)):
+            a = ast.copy_location(ast.Assign(targets=[ast.Name(id=p, ctx=ast.Store())], value=s.value), s)
+            ast.fix_missing_locations(a)
+            out += [a, ast.copy_location(ast.Return(value=ast.copy_location(ast.Name(id=p, ctx=ast.Load()), s)), s)]
+        else:
+            out.append(s)
+    return out
